@@ -6,6 +6,7 @@ import Drv.Components
 import Drv.World
 import Drv.Order
 import Drv.Adapt
+import Drv.Verify
 /-! Line-protocol driver: `driver <layer> [args]` reads operation lines on stdin and prints one
     answer line per operation, computed by the executable model definitions. -/
 def main (args : List String) : IO Unit := do
@@ -18,4 +19,5 @@ def main (args : List String) : IO Unit := do
   | "world" :: _ => Drv.World.main
   | "order" :: rest => Drv.Order.main rest
   | "adapt" :: rest => Drv.Adapt.main rest
+  | "verify" :: _ => Drv.Verify.main
   | _ => IO.eprintln "usage: driver <layer>"
